@@ -280,5 +280,19 @@ def _write_evidence(prop, tier, seed, mod, runs, total, samples, bounds,
         json.dump(ev, fh, indent=1, sort_keys=True)
 
 
+def _guarded():
+    # An internal error of the checker must never look like a verdict: exit
+    # code 1 is reserved for replay-confirmed violations.
+    try:
+        return main()
+    except SystemExit:
+        raise
+    except BaseException as e:
+        import traceback
+        traceback.print_exc()
+        print('HARNESS-ERROR checker failed internally: %r' % (e,))
+        return EXIT_INCONCLUSIVE
+
+
 if __name__ == '__main__':
-    sys.exit(main())
+    sys.exit(_guarded())
